@@ -30,7 +30,15 @@ type FaultBackend struct {
 	mode  string
 	Stall time.Duration
 	conns int
+	reqs  int // client requests (not probes) whose head was received
 	done  bool
+}
+
+// Requests is the number of non-probe requests this backend has received.
+func (fb *FaultBackend) Requests() int {
+	fb.mu.Lock()
+	defer fb.mu.Unlock()
+	return fb.reqs
 }
 
 func NewFaultBackend() *FaultBackend {
@@ -138,6 +146,10 @@ func (fb *FaultBackend) serve(c net.Conn, mode string, stall time.Duration) {
 		}
 		if path == ProbePath {
 			mode = "healthy"
+		} else {
+			fb.mu.Lock()
+			fb.reqs++
+			fb.mu.Unlock()
 		}
 		if cl > 0 {
 			if _, err := io.CopyN(io.Discard, br, int64(cl)); err != nil {
